@@ -46,6 +46,8 @@ type c01In struct {
 	Mode   string    `json:"mode,omitempty"`   // "" | "f11" (stop after the first user abort)
 	AbortP int       `json:"abortp,omitempty"` // per-mille chance of a user abort per step
 	FailDo []int     `json:"faildo,omitempty"` // tasks whose do handler fails (dynamic mode; default: chosen from Seed)
+	WaitP  int       `json:"waitp,omitempty"`  // percent chance that a handler answers Wait (typed: do -> Done, undo -> Undone); default 5
+	Drain  bool      `json:"drain,omitempty"`  // after Script: drain the change (random orders from Seed)
 }
 
 type c01Start struct {
@@ -57,6 +59,7 @@ type c01Start struct {
 
 type c01Obs struct {
 	St     []string `json:"st"`
+	Wd     []string `json:"wd"` // Task.WaitedStatus (never set: Hold)
 	Run    []int    `json:"run"`
 	Ready  bool     `json:"ready"`
 	Cst    string   `json:"cst"`
@@ -382,6 +385,11 @@ func (h *c01Run) observe(starts []string) c01Obs {
 	o := c01Obs{Run: []int{}, Err: []int{}, Failed: []int{}, Starts: starts, Panic: h.panicked, HookOK: h.hookOK}
 	for _, t := range h.tasks {
 		o.St = append(o.St, c01Coq(t.Status()))
+		wd := "Hold"
+		if w := t.WaitedStatus(); w != DefaultStatus {
+			wd = c01Coq(w)
+		}
+		o.Wd = append(o.Wd, wd)
 	}
 	for i := range tombs {
 		o.Run = append(o.Run, i)
@@ -517,7 +525,7 @@ func (h *c01Run) outcome(r *vh.Rand, i int, failDo, failUndo map[int]bool, drain
 		}
 	case x < 11:
 		e.O = "logretry"
-	case x < 16:
+	case x < 11+h.waitP():
 		if undoing != r.Chance(1, 10) {
 			e.O = "waitu"
 		} else {
@@ -525,6 +533,13 @@ func (h *c01Run) outcome(r *vh.Rand, i int, failDo, failUndo map[int]bool, drain
 		}
 	}
 	return e
+}
+
+func (h *c01Run) waitP() int {
+	if h.in.WaitP > 0 {
+		return h.in.WaitP
+	}
+	return 5
 }
 
 func c01Exec(in c01In) (steps []c01Step, h *c01Run) {
@@ -554,7 +569,10 @@ func c01Exec(in c01In) (steps []c01Step, h *c01Run) {
 				break
 			}
 		}
-		return h.steps, h
+		if !in.Drain {
+			return h.steps, h
+		}
+		in.Steps = 0
 	}
 	r := vh.NewRand(in.Seed)
 	failDo, failUndo := map[int]bool{}, map[int]bool{}
@@ -571,6 +589,10 @@ func c01Exec(in c01In) (steps []c01Step, h *c01Run) {
 	}
 	if r.Chance(1, 8) {
 		failUndo[r.Intn(n)] = true
+	}
+	if len(in.Script) > 0 {
+		// scripted prefix: the drain that follows injects no further failures
+		failDo, failUndo = map[int]bool{}, map[int]bool{}
 	}
 	if len(in.FailDo) > 0 {
 		failDo = map[int]bool{}
@@ -725,7 +747,7 @@ func c01Mask(l []int) string {
 }
 
 func c01CoqObs(o c01Obs) string {
-	return "(OB " + c01Vec(o.St) + " " + c01Mask(o.Run) + " " + vh.CoqBool(o.Ready) + " " + o.Cst + " " +
+	return "(OB " + c01Vec(o.St) + " " + c01Vec(o.Wd) + " " + c01Mask(o.Run) + " " + vh.CoqBool(o.Ready) + " " + o.Cst + " " +
 		vh.CoqBool(o.Rt) + " " + c01Mask(o.Err) + " " + c01Mask(o.Failed) + " " + vh.CoqBool(o.Panic) + " " +
 		c01List(o.Starts) + " " + vh.CoqBool(o.HookOK) + ")"
 }
@@ -864,6 +886,90 @@ func boolInt(b bool) int {
 	return 0
 }
 
+// c01Place puts logical tasks at random positions of the change (lg[i].Waits are logical ids) and translates a script
+func c01Place(r *vh.Rand, lg []c01Task, script []c01Ev) ([]c01Task, []c01Ev) {
+	n := len(lg)
+	perm := r.Perm(n)
+	tasks := make([]c01Task, n)
+	for i, t := range lg {
+		nt := c01Task{Lanes: t.Lanes, Undo: t.Undo, Waits: []int{}}
+		for _, w := range t.Waits {
+			nt.Waits = append(nt.Waits, perm[w])
+		}
+		sort.Ints(nt.Waits)
+		tasks[perm[i]] = nt
+	}
+	out := make([]c01Ev, len(script))
+	for i, e := range script {
+		if e.K == "finish" || e.K == "resolve" {
+			e.T = perm[e.T]
+		}
+		out[i] = e
+	}
+	return tasks, out
+}
+
+// c01UndoWait: a chain 0 <- 1 <- ... <- c-1 <- F; everything completes, F fails, the chain is undone from the far end
+// and the undo handler of task k answers Wait{WaitedStatus: Undone} while k-1 ... 0 are still in Undo (blocked, along
+// halt edges, on the waiting task): the change must report Wait.
+func c01UndoWait(r *vh.Rand) c01In {
+	c := r.Range(3, 5)
+	lane := []int{}
+	if r.Bool() {
+		lane = []int{1}
+	}
+	var lg []c01Task
+	for i := 0; i <= c; i++ {
+		t := c01Task{Lanes: lane, Undo: true, Waits: []int{}}
+		if i > 0 {
+			t.Waits = []int{i - 1}
+		}
+		lg = append(lg, t)
+	}
+	sc := []c01Ev{{K: "ensure"}}
+	for i := 0; i < c; i++ {
+		sc = append(sc, c01Ev{K: "finish", T: i, O: "ok"}, c01Ev{K: "ensure"})
+	}
+	sc = append(sc, c01Ev{K: "finish", T: c, O: "err"}, c01Ev{K: "ensure"})
+	k := r.Range(2, c-1)
+	for j := c - 1; j > k; j-- {
+		sc = append(sc, c01Ev{K: "finish", T: j, O: "ok"}, c01Ev{K: "ensure"})
+	}
+	sc = append(sc, c01Ev{K: "finish", T: k, O: "waitu"}, c01Ev{K: "ensure"})
+	if r.Bool() {
+		sc = append(sc, c01Ev{K: "tick", D: 2}, c01Ev{K: "ensure"})
+	}
+	sc = append(sc, c01Ev{K: "resolve", T: k}, c01Ev{K: "ensure"})
+	tasks, script := c01Place(r, lg, sc)
+	return c01In{Tasks: tasks, Script: script, Drain: true, Seed: r.U64()}
+}
+
+// c01Parked: S in lanes 1 and 2; lane 1: F (fails); lane 2: K <- N, K's do handler answers Wait (parked, reboot
+// pending) and F fails while lane 2 is parked: the parked lane is healthy (a task in Wait counts by the status it
+// waits for), so S keeps its exemption and lane 2 completes after the wait is resolved.
+func c01Parked(r *vh.Rand) c01In {
+	sl := []int{1, 2}
+	if r.Bool() {
+		sl = []int{2, 1}
+	}
+	lg := []c01Task{
+		{Lanes: sl, Undo: true, Waits: []int{}},        // 0 S
+		{Lanes: []int{1}, Undo: true, Waits: []int{0}}, // 1 F
+		{Lanes: []int{2}, Undo: true, Waits: []int{0}}, // 2 K
+		{Lanes: []int{2}, Undo: true, Waits: []int{2}}, // 3 N
+	}
+	if r.Bool() {
+		lg = append(lg, c01Task{Lanes: []int{1}, Undo: true, Waits: []int{1}}) // 4: waits for F
+	}
+	sc := []c01Ev{{K: "ensure"}, {K: "finish", T: 0, O: "ok"}, {K: "ensure"}, {K: "finish", T: 2, O: "wait"}}
+	if r.Bool() {
+		sc = append(sc, c01Ev{K: "ensure"})
+	}
+	sc = append(sc, c01Ev{K: "finish", T: 1, O: "err"}, c01Ev{K: "ensure"}, c01Ev{K: "resolve", T: 2}, c01Ev{K: "ensure"})
+	tasks, script := c01Place(r, lg, sc)
+	return c01In{Tasks: tasks, Script: script, Drain: true, Seed: r.U64()}
+}
+
 func c01Gen(mode string) func(r *vh.Rand, tier string, n int) []c01In {
 	return func(r *vh.Rand, tier string, n int) []c01In {
 		if n <= 0 {
@@ -904,14 +1010,28 @@ func c01Gen(mode string) func(r *vh.Rand, tier string, n int) []c01In {
 			maxN = 9
 		}
 		for len(out) < n {
-			if r.Chance(1, 4) {
+			switch x := r.Intn(20); {
+			case x < 5:
 				ts, fails := c01Shared(r, maxN)
-				out = append(out, c01In{Tasks: ts, FailDo: fails, Seed: r.U64(), Steps: r.Range(5, 60)})
+				in := c01In{Tasks: ts, FailDo: fails, Seed: r.U64(), Steps: r.Range(5, 60)}
+				if r.Bool() {
+					in.WaitP = 25 // lanes get parked in Wait while others fail
+				}
+				out = append(out, in)
+				continue
+			case x < 7:
+				out = append(out, c01UndoWait(r))
+				continue
+			case x < 9:
+				out = append(out, c01Parked(r))
 				continue
 			}
 			in := c01In{Tasks: c01Graph(r, maxN), Seed: r.U64(), Steps: r.Range(5, 60)}
 			if r.Chance(1, 4) {
 				in.AbortP = r.Range(5, 40)
+			}
+			if r.Chance(1, 4) {
+				in.WaitP = 25
 			}
 			out = append(out, in)
 		}
@@ -941,6 +1061,18 @@ func c01Driver(prop string, mode string) {
 		}
 		if len(in.FailDo) > 1 {
 			tags = append(tags, "shared-task-two-lane-failures")
+		}
+		if len(in.Script) > 0 && in.Drain {
+			tags = append(tags, "scripted-wait-family")
+		}
+		sawWait := false
+		for _, st := range steps {
+			if st.Obs.Cst == "Wait" {
+				sawWait = true
+			}
+		}
+		if sawWait {
+			tags = append(tags, "change-reported-wait")
 		}
 		if len(h.logged) > 0 {
 			tags = append(tags, "handler-logged-error-then-retry")
